@@ -1,6 +1,7 @@
 #!/usr/bin/env python3
 import ast
 import os
+import re
 from collections import defaultdict
 from typing import Dict, Tuple, Union
 
@@ -136,7 +137,9 @@ MappingType = Dict[str, Dict[str, Tuple[str, str]]]
 
 
 def rewrite_imports(source_code: str, mapping: MappingType) -> Union[str, None]:
-    lines = source_code.splitlines(keepends=True)
+    # physical lines as the tokenizer (and so ast line numbers) counts them: str.splitlines()
+    # would also break at form feeds, vertical tabs, U+2028, ... inside comments and strings
+    lines = re.findall(r"[^\r\n]*(?:\r\n|\r|\n)|[^\r\n]+", source_code)
     tree = ast.parse(source_code)
     replacements = []
 
